@@ -14,6 +14,8 @@ def val(thr, tgts, spanl=0, none=False):
 
 V = [val(3, ["a"]), val(5, ["a", "b"]), val(1, ["b"]), val(4, ["a"])]
 VENV = [val(3, ["a"]), val(3, ["a"], 5), val(1, ["a", "b"]), val(2, ["a"], 5)]
+# ... through a value that accepts nothing (an empty Targets: its hint is OFF) and back
+VOFF = [val(3, ["a"]), val(0, []), val(4, ["a", "b"]), val(0, [])]
 # a reloadable Option<Targets>: Some(..) -> Some(..) -> None -> Some(..)
 VOPT = [val(3, ["a"]), val(2, ["a", "b"]), val(0, [], none=True), val(1, ["b"])]
 # an EnvFilter edited IN PLACE (Handle::modify + add_directive): only the level of the span-scoped directive changes
@@ -32,6 +34,9 @@ def scenarios(rng, n):
         nth = rng.choice([2, 2, 3])
         threads = []
         reloads = [1, 2] if rng.random() < 0.7 else [rng.choice([1, 2, 3])]
+        off = kind in ("global", "perlayer") and rng.random() < 0.4
+        if off:
+            reloads = [1, 2]
         # the reloading thread also emits; the others only emit - first some hits so that always / never verdicts are cached
         t1 = [hit(rng.choice(CS)) for _ in range(rng.choice([1, 2]))]
         for v in reloads:
@@ -55,7 +60,9 @@ def scenarios(rng, n):
                     if o["op"] == "hit" and rng.random() < 0.5:
                         o["inspan"], o["k"] = True, "event"
         out.append({"name": "R-%s-%d" % (kind, i), "collectors": {}, "reload": {"kind": "env" if kind in ("envmod", "envmod0") else kind,
-                               "values": VENV if kind in ("env", "envplf") else VMOD if kind == "envmod" else VMOD0 if kind == "envmod0" else VOPT if kind == "optglobal" else V}, "threads": threads})
+                               # the recording layer above the reloadable filter may be a sampling layer (it answers `sometimes`)
+                               "sampler": rng.random() < 0.4,
+                               "values": VENV if kind in ("env", "envplf") else VMOD if kind == "envmod" else VMOD0 if kind == "envmod0" else VOPT if kind == "optglobal" else VOFF if off else V}, "threads": threads})
     return out
 
 
